@@ -81,7 +81,7 @@ private def posOf {α : Type} (a : DimArray α) (k : DimKey) : Except Err Int :=
     | .name s =>
       let p := a.dims.idxOf s
       if p < a.dims.length then .ok (p : Int) else .error .value
-    | .pos i => .ok i
+    | .pos i => if i < -(a.ndim : Int) || i ≥ (a.ndim : Int) then .error .index else .ok i
 
 theorem axesPositions_names {α : Type} (a : DimArray α) :
     ∀ (names : List String) (pi : List Int), axesPositions a (names.map DimKey.name) = .ok pi →
